@@ -24,6 +24,9 @@ _MESSAGES = {
 }
 
 
+_conn_of = {}
+
+
 class InjectedFault(object):
     """Marker mixed into injected exceptions (attribute only; class identity is sqlite3's)."""
 
@@ -69,6 +72,7 @@ class Ctx(object):
         self.busy_expired = 0
         self.observations = []
         self.fault_filter = None   # callable(ev, requested) -> actual fault kind or None
+        _conn_of.clear()
 
     def thread_name(self):
         s = simsched.current_scheduler()
@@ -120,6 +124,7 @@ def _intercept(conn, kind, sql=None, params=None, many=False, cursor=None):
     if c.record:
         c.events.append(ev)
     if conn is not None:
+        _conn_of[g] = conn
         pid = os.getpid()
         if conn.pid != pid:
             c.foreign_pid_use.append({'g': g, 'conn': conn.cid, 'conn_pid': 'parent', 'kind': kind,
@@ -142,7 +147,9 @@ def _intercept(conn, kind, sql=None, params=None, many=False, cursor=None):
         ev['fault'] = fk
         c.fired.append([g, thread, k, kind, fk])
         _apply_fault_side_effect(conn, kind, fk, cursor)
-        raise make_fault_exc(fk)
+        exc = make_fault_exc(fk)
+        _after(ev, exc)
+        raise exc
     s = simsched.current_scheduler()
     if s is not None and s.active:
         s.yield_point('db', kind)
@@ -180,6 +187,18 @@ def _after(ev, exc=None):
     c = ctx
     if exc is not None:
         ev['exc'] = type(exc).__name__ + ':' + str(exc)[:80]
+    conn = _conn_of.pop(ev['g'], None) if ev['c'] >= 0 else None
+    if conn is None and 0 <= ev['c'] < len(c.conns):
+        conn = c.conns[ev['c']]
+    if conn is not None:
+        # transaction state of the real connection after the call (models follow this, not Pony's flags)
+        if conn.closed:
+            ev['tx_after'] = False
+        else:
+            try:
+                ev['tx_after'] = bool(conn._real.in_transaction)
+            except Exception:
+                pass
     s = simsched.current_scheduler()
     if s is not None and s.active:
         s.db_call_done()
@@ -286,10 +305,18 @@ class ProxyConnection(object):
 
     def commit(self):
         ev = _intercept(self, 'commit')
+        try:
+            ev['in_tx'] = bool(self._real.in_transaction)
+        except Exception:
+            pass
         return _call_real(ev, self._real.commit)
 
     def rollback(self):
         ev = _intercept(self, 'rollback')
+        try:
+            ev['in_tx'] = bool(self._real.in_transaction)
+        except Exception:
+            pass
         return _call_real(ev, self._real.rollback)
 
     def close(self):
